@@ -210,7 +210,7 @@ func TestC11LargeLog(t *testing.T) {
 	}
 	// a few events, one of them very large (5 MiB, then 9 MiB): no page is "full" before it holds
 	// at least the next event, whatever its size
-	for bi, kind := range []string{"memory-paged", "sqlite-paged", "sqlite-mem", "sqlite-file", "durable"} {
+	for bi, kind := range []string{"memory-paged", "sqlite-paged", "sqlite-mem", "sqlite-file", "sqlite-batch2", "sqlite-batch1000", "durable"} {
 		idx++
 		if !run.Mine(idx) {
 			continue
@@ -224,6 +224,8 @@ func TestC11LargeLog(t *testing.T) {
 		for k := 1; k <= L; k++ {
 			pad := ""
 			switch k {
+			case 2:
+				pad = strings.Repeat("0123456789abcdef", 400) // a few KiB
 			case 3:
 				pad = strings.Repeat("0123456789abcdef", 5<<16)
 			case 5:
